@@ -340,6 +340,17 @@ def run(ctx):
         elif res is not None:
             # functional property: the proved model *is* the property's answer on this input
             ctx.report(case, 'failure', res)
+    for fn_ in ('minimum', 'maximum'):
+        for N_ in (2, 3):
+            D_ = ctx.rng.randint(1, 3)
+            x_ = rand_coeffs(ctx.rng, (D_, N_, N_), -2, 2)
+            s_ = rand_coeffs(ctx.rng, (D_, N_), -2, 2) + 0.0625
+            case = {'op': 'minmax-rank', 'fn': fn_, 'D': D_, 'P': N_, 'x': x_, 's': s_}
+            ctx.evaluations += 1
+            ctx.count('fn=%s:rank-mismatch' % fn_)
+            res = minmax_rank_fails(case)
+            if res:
+                ctx.report(case, 'failure', res)
     # base points exactly 0 where f is smooth there (every natural exponent of x**k; sin, erf, … )
     zero_ok = [n for n in sorted(TABLE) if TABLE[n]['dom'] in ('any', 'small', 'tan', 'unit')]
     for name in zero_ok:
@@ -470,7 +481,28 @@ def search(ctx, case, what):
     return None
 
 
+def minmax_rank_fails(case):
+    """minimum / maximum of operands of DIFFERENT rank (a vector against a scalar polynomial, as many directions as entries, the
+    init_jacobian set-up): either refused, or entry i is minimum / maximum of x[i] and s -- never a mix of directions"""
+    x, s_ = np.array(case['x']), np.array(case['s'])
+    fn = getattr(algopy, case['fn'])
+    want = np.stack([fn(UTPM(x[:, :, i].copy()), UTPM(s_.copy())).data for i in range(x.shape[2])], axis=2)
+    for a, b, lab in ((UTPM(x.copy()), UTPM(s_.copy()), 'x, s'), (UTPM(s_.copy()), UTPM(x.copy()), 's, x')):
+        try:
+            got = fn(a, b).data
+        except (NotImplementedError, ValueError):
+            continue
+        except Exception as ex:
+            return 'minmax-rank-exception: algopy.%s(%s) raised %s' % (case['fn'], lab, type(ex).__name__)
+        if got.shape != want.shape or not close(got, want, 1e-12):
+            return 'minmax-rank: algopy.%s(%s) of a vector and a scalar polynomial (P = N = %d) is not the entry-wise %s (directions mixed)' % (
+                case['fn'], lab, x.shape[2], case['fn'])
+    return None
+
+
 def replay_case(ctx, case):
+    if case.get('op') == 'minmax-rank':
+        return minmax_rank_fails(case)
     if case.get('tail'):
         return tail_fails(case)
     if case.get('utp'):
